@@ -113,11 +113,9 @@ def cmd_run(sid, checks=None, tier='quick'):
             print(sid, 'patch does not apply:', msg[-300:])
             return
         for c in checks:
-            evid = os.path.join(VERIF, 'evidence', '%s.json' % c)
-            keep = None
-            if os.path.exists(evid):
-                keep = open(evid).read()
-            env = dict(os.environ, VERIF_REPO=tree, VERIF_REPLAYS=os.path.join(tree, '.replays'))
+            # evidence of a run on a scratch copy does not belong in /verif/evidence
+            env = dict(os.environ, VERIF_REPO=tree, VERIF_REPLAYS=os.path.join(tree, '.replays'),
+                       VERIF_EVIDENCE=os.path.join(tree, '.evidence'))
             t0 = time.time()
             r = subprocess.run([os.path.join(VERIF, 'check'), c, '--tier', tier], cwd=VERIF, env=env,
                                capture_output=True, text=True, timeout=7200)
@@ -125,9 +123,6 @@ def cmd_run(sid, checks=None, tier='quick'):
             results[c] = {'exit': r.returncode, 'tier': tier, 'wall_s': round(time.time() - t0, 1),
                           'violations': lines[:6], 'stderr_tail': r.stderr[-300:] if r.returncode == 2 else ''}
             print(sid, c, 'DETECTED' if r.returncode == 1 else ('MISSED' if r.returncode == 0 else 'MACHINERY'), results[c]['wall_s'], lines[:2])
-            # the evidence file belongs to runs on /repo itself: restore it
-            if keep is not None:
-                open(evid, 'w').write(keep)
         json.dump(meta, open(os.path.join(d, 'meta.json'), 'w'), indent=1)
     finally:
         shutil.rmtree(tree, True)
